@@ -344,6 +344,27 @@ pub fn run(ctx: &Ctx) -> i32 {
                     check_pair(&mut rep, &rf, &qa, ea.as_ref(), &doc, &format!("key {:?} {:?} k={} dup={}", q, f, k, dup), Some(ntrue), n);
                 }
                 check_pair(&mut rep, &rf, &qa, ea.as_ref(), &DVal::Obj(vec![("j".into(), DVal::s("x"))]), &format!("key {:?} {:?} absent", q, f), None, None);
+                // array-valued field (string families): two elements, each making its own subset
+                // of the members true. The reference brackets the two readings of a quantifier
+                // over an array (Appendix A 8): true when one element alone reaches the
+                // threshold, not true when even the union of the elements does not.
+                if !dup && *q != Q::Plain && matches!(f, Fam::Contains | Fam::IContains | Fam::Regex | Fam::IRegex | Fam::MixedStrings | Fam::Prefixes | Fam::Exact) {
+                    for m1 in 0u32..(1 << k) {
+                        for m2 in m1..(1 << k) {
+                            let (Some(v1), Some(v2)) = (value_for(f, k, m1), value_for(f, k, m2)) else { continue };
+                            let best = m1.count_ones().max(m2.count_ones()) as usize;
+                            let n = match q {
+                                Q::Of(n) => *n,
+                                _ => len as u64,
+                            };
+                            for arr in [vec![v1.clone(), v2.clone()], vec![DVal::UInt(7), v2.clone(), v1.clone()]] {
+                                let doc = DVal::Obj(vec![("k".into(), DVal::Arr(arr))]);
+                                check_pair_ref_only(&mut rep, &rf, &qa, &doc, &format!("key-array {:?} {:?} k={}", q, f, k), best, n);
+                                rep.count("array_field_cells");
+                            }
+                        }
+                    }
+                }
                 // condition-level quantifier over an identifier with the same members as entries
                 // on distinct fields k0..: entry i is `k{i}: member`
                 if f != Fam::Nested {
@@ -461,9 +482,9 @@ pub fn run(ctx: &Ctx) -> i32 {
         ctx,
         rep,
         Meta {
-            rule: format!("member families (contains, i-contains, regex, i-regex, mixed string kinds, nested prefixes, numeric thresholds, integers, nested mappings) x list length 1..{} (+ a duplicated member) x quantifier {{plain, all, of(n) for n in 0..len+1}} x every subset of members made true by a scalar field value (complete for each family) x {{key list, condition-level quantifier over a sequence identifier, over a mapping identifier}}; each quantified rule is compared with the same rule written out with explicit and/or/not over one-member identifiers (both run by the real engine) and with member counting in the reference interpreter; plus random mixed member lists and identifiers whose entries are lists. non-trivial = number of true members within 1 of the threshold; distinct by (form, family, length, threshold, true members)", maxk),
+            rule: format!("member families (contains, i-contains, regex, i-regex, mixed string kinds, nested prefixes, numeric thresholds, integers, nested mappings) x list length 1..{} (+ a duplicated member) x quantifier {{plain, all, of(n) for n in 0..len+1}} x every subset of members made true by a scalar field value (complete for each family) x {{key list, condition-level quantifier over a sequence identifier, over a mapping identifier}}; each quantified rule is compared with the same rule written out with explicit and/or/not over one-member identifiers (both run by the real engine) and with member counting in the reference interpreter; plus two- and three-element array fields whose elements make chosen member subsets true (string families), random mixed member lists and identifiers whose entries are lists. non-trivial = number of true members within 1 of the threshold; distinct by (form, family, length, threshold, true members)", maxk),
             exhaustive: true,
-            assumptions: vec!["documents have scalar fields (as the property's quantifier says)".into(), "all(X)/of(X,n) over a one-entry mapping whose value is a list is left open (Appendix A)".into()],
+            assumptions: vec!["on an array-valued field only the bracket of the two readings is checked (true when one element alone reaches the threshold, not true when the union of all elements does not)".into(), "all(X)/of(X,n) over a one-entry mapping whose value is a list is left open (Appendix A)".into()],
             min_nontrivial: 300,
             extra: json!({}),
         },
